@@ -184,6 +184,71 @@ def r18b(ctx, rep, rule="R18b"):
         rep.ok(rule, key, "the Symbol test and the table removal precede the overwrite of the freed cell", [fn.span])
 
 
+def r18b2(ctx, rep, rule="R18b"):
+    """every path that frees a cell goes through Heap::free (where the table is cleaned)"""
+    facts, cg = ctx["facts"], ctx["cg"]
+    GCSET = "marwood::vm::gc::Map::set"
+    n = 0
+    for p, f in sorted(facts.fns.items()):
+        if f.crate != "marwood" or p.startswith("marwood::vm::gc::"):
+            continue
+        for bb, t in f.calls():
+            if callee(t) == GCSET and len(t["args"]) > 2:
+                o = f.origin(t["args"][2])
+                v = None
+                if o[0] == "rv" and o[1]["rv"]["k"] == "agg":
+                    v = o[1]["rv"].get("variant")
+                elif o[0] == "const":
+                    v = o[1].get("text")
+                if v and "Free" in v:
+                    n += 1
+                    key = "%s|frees|%s" % (rule, f.short)
+                    if p == HEAP + "free":
+                        rep.ok(rule, key, "a cell is marked Free only in Heap::free", [t["loc"]])
+                    else:
+                        rep.fail(rule, key, "%s marks a cell Free itself, bypassing Heap::free and with it the symbol-table "
+                                 "cleanup: a swept symbol's name keeps pointing at the freed (later recycled) cell" % f.short,
+                                 [t["loc"]])
+    rep.floor(rule, "sites that mark a cell Free", n, 1)
+    sw = facts.fn(HEAP + "sweep")
+    if sw is not None:
+        ok = any(callee(t) == HEAP + "free" for bb, t in sw.calls())
+        (rep.ok if ok else rep.fail)(rule, "%s|sweep-calls-free" % rule, "Heap::sweep releases cells through Heap::free" if ok else
+                                     "Heap::sweep no longer releases cells through Heap::free (where a symbol's name is removed "
+                                     "from the table)", [sw.span])
+    for p, f in sorted(facts.fns.items()):
+        if not p.startswith(HEAP) or p in (HEAP + "free", HEAP + "grow", HEAP + "new"):
+            continue
+        for bb, t in f.calls():
+            if callee(t).endswith("Vec::<T, A>::push") and t["args"]:
+                o = f.origin(t["args"][0])
+                if o[0] == "arg" and o[1] == 1 and o[2] and isinstance(o[2][0], dict) and o[2][0].get("n") == "free_list":
+                    rep.fail(rule, "%s|free_list-push|%s" % (rule, f.short), "%s returns a cell to the free list outside "
+                             "Heap::free" % f.short, [t["loc"]])
+
+
+def r18e(ctx, rep, rule="R18e"):
+    facts = ctx["facts"]
+    rep.rule(rule, "the decoder is applied on every path: string->symbol may emit an escape at any position of a name, so "
+             "every Ok return of symbol->string must pass through the call of parse::parse_string (must-pass-through); "
+             "a shortcut that returns the stored name verbatim breaks the round trip for names with escapes.")
+    f = need(rep, rule, facts, "marwood::vm::builtin::symbol::symbol_string")
+    if f is None:
+        return
+    ps = [bb for bb, t in f.calls() if callee(t) == "marwood::parse::parse_string"]
+    oks = [bb for bb, j, s in f.stmts() if not s["lhs"]["p"] and s["lhs"]["l"] == 0 and s["rv"]["k"] == "agg"
+           and s["rv"].get("variant") == "Ok"]
+    if not ps or not oks:
+        rep.anchor_lost(rule, "parse_string call / Ok return in symbol_string")
+        return
+    free = f.reach_from(0, avoid=ps)
+    bad = [b for b in oks if b in free]
+    (rep.fail if bad else rep.ok)(rule, "%s|symbol_string|decode-on-every-path" % rule,
+                                  "symbol->string can return Ok without decoding the stored name: names whose encoding "
+                                  "contains \\x..; escapes come back escaped" if bad else
+                                  "every Ok return of symbol->string decodes the stored name", [f.span])
+
+
 def r18c(ctx, rep):
     facts = ctx["facts"]
     rep.rule("R18c", "identity is pointer identity: Vm::eqv has no (Symbol, Symbol) arm; symbols compare equal only "
@@ -206,6 +271,8 @@ def r18c(ctx, rep):
 def run(ctx, rep):
     r18a(ctx, rep)
     r18b(ctx, rep)
+    r18b2(ctx, rep)
+    r18e(ctx, rep)
     r18c(ctx, rep)
     from . import tables
     tables.r18d(ctx, rep)
